@@ -486,7 +486,7 @@ def _enumerate(rec, tier, seed, bound_out):
     for n in ns_d:
         for p in ((1,) if quick and n != 8 else (1, 2)):
             specs = [{"kind": "table", "seed": seed + n, "q": p, "style": "perm"}, {"kind": "table", "seed": seed + n + 1, "q": 1, "style": "signed"}]
-            specs += [{"kind": "builtin", "name": nm} for nm in O.builtin_local_scores(p) if not (quick and (nm.startswith("LocalAnomalyScore") or nm == "GaussianCovCost"))]
+            specs += [{"kind": "builtin", "name": nm} for nm in O.builtin_local_scores(p) if not (quick and (nm.startswith("LocalAnomalyScore") or (nm == "GaussianCovCost" and n != 8)))]
             for spec in specs:
                 msize = 1 if spec["kind"] == "table" else O.builtin_local_scores(p)[spec["name"]][1]
                 for m in ms:
